@@ -1,8 +1,8 @@
 (* C14 — property theorems.  Only statements, each closed by [exact], each followed by
    Print Assumptions. *)
 From Coq Require Import ZArith QArith List Bool.
-From Centro Require Import Model.Circle Model.Feret Model.HullFill Spec.MecSpec Spec.ChrystalHyp Spec.FeretSpec Spec.FeretLower Spec.FillSpec
-  Proofs.MecProofs Proofs.CircleProofs Proofs.ChrystalFull Proofs.FeretProofs Proofs.FeretLowerProofs Proofs.SweepProofs Proofs.FillProofs Proofs.FillEdgeProofs Proofs.FillModelProofs.
+From Centro Require Import Base.VecC13 Model.Circle Model.CircleVec Model.Feret Model.HullFill Spec.MecSpec Spec.ChrystalHyp Spec.FeretSpec Spec.FeretLower Spec.FillSpec
+  Proofs.MecProofs Proofs.CircleProofs Proofs.ChrystalFull Proofs.CircleVecProofs Proofs.FeretProofs Proofs.FeretLowerProofs Proofs.SweepProofs Proofs.FillProofs Proofs.FillEdgeProofs Proofs.FillModelProofs.
 
 (* Full.  Soundness of the certificate checker that is run on the exact circle reconstructed from
    the implementation's output: the circle contains every pixel centre of S and no circle
@@ -49,6 +49,50 @@ Theorem C14_chrystal_reaches_certificate : forall h,
     MEC h (inject_Z ny / inject_Z d) (inject_Z nx / inject_Z d) (inject_Z rn / inject_Z (d * d)).
 Proof. exact chrystal_reaches_certificate. Qed.
 Print Assumptions C14_chrystal_reaches_certificate.
+
+(* ---- the vectorised bookkeeping of minimum_enclosing_circle (Model/CircleVec.v: global hull rows,
+   point_index = offsets, anti_indexes_per_point = anti_index gather, within_label_indexes, global
+   s0_idx / s1_idx), over the C13 idiom lemmas offsets_correct / anti_index_correct ---- *)
+
+(* Full.  The rows addressed through point_index[k] .. + point_count[k] are exactly object k's block
+   of the hull array, for any numbering and order of `indexes`. *)
+Theorem C14_mec_vec_own_block : forall indexes blocks k l b,
+  length indexes = length blocks -> nth_error indexes k = Some l -> nth_error blocks k = Some b ->
+  exists off, nth_error (offsets (map zlenv blocks)) k = Some off /\
+              segment (hull_rows indexes blocks) off (zlenv b) = map (pair l) b.
+Proof. exact own_block. Qed.
+Print Assumptions C14_mec_vec_own_block.
+
+(* Full.  anti_indexes[label] of a row of object k is k (duplicate-free non-negative index list). *)
+Theorem C14_mec_vec_own_anti : forall indexes k l,
+  NoDup indexes -> (forall j, In j indexes -> (0 <= j)%Z) -> nth_error indexes k = Some l ->
+  nthz (anti_index indexes) l 0%Z = Z.of_nat k.
+Proof. exact own_anti. Qed.
+Print Assumptions C14_mec_vec_own_anti.
+
+(* Full.  What an iteration decides for object k (finish with which circle / which global row
+   becomes the new S0 or S1) reads only k's own entries of keep_me, s0_idx, s1_idx and
+   within_label_indexes at rows whose anti-index is k: two global states that agree there decide
+   the same, whatever the other objects' data are. *)
+Theorem C14_mec_vec_reads_local : forall rows app k st st',
+  agree app k st st' -> decide rows app st k = decide rows app st' k.
+Proof. exact decide_local. Qed.
+Print Assumptions C14_mec_vec_reads_local.
+
+(* Partial (per-object independence of a whole pass).  Proved: the writes an iteration performs for
+   another object k' (its keep_me / result entry, its s0_idx or s1_idx entry, two positions of
+   within_label_indexes among k' own rows) leave everything object k reads untouched.  Missing: the
+   composition lemma over the fold of all objects' writes in one pass (vstep_fold_frame) and the
+   congruence of an object's own write, which together give "object k's trajectory is a function of
+   block k alone".  On every run the extracted vectorised model is compared with the per-object
+   model of Model/Circle.v for all objects of the call. *)
+Theorem C14_mec_vec_independent_partial : forall app k k' st a,
+  Z.to_nat k <> Z.to_nat k' -> k <> k' ->
+  nthz app (nthz (v_s0 st) k' 0%Z) (-1)%Z = k' -> nthz app (nthz (v_s1 st) k' 0%Z) (-1)%Z = k' ->
+  (forall g, a = MoveS0 g \/ a = MoveS1 g -> nthz app g (-1)%Z = k') ->
+  agree app k (apply_action st k' a) st.
+Proof. exact others_frame. Qed.
+Print Assumptions C14_mec_vec_independent_partial.
 
 (* Full.  The brute-force maximum Feret diameter (squared) that the implementation's value is
    compared with is the largest squared distance between two pixels of the object. *)
